@@ -196,6 +196,17 @@ fn faults(m: &Model, valid: &[u8], other_seed: &[u8], other_params: &[u8], half:
             f.push((format!("pad-{:02x}@{}", fill, extra), b, true));
         }
     }
+    // two faults at once: the buffer is cut inside its MAC (1..=n bytes missing) AND its contents are
+    // wrong for this seed (a cached node altered / the buffer of another seed)
+    let mut altered = valid.to_vec();
+    altered[4 + 3] ^= 0x10;
+    for k in 1..=n {
+        if big && k % 5 != 0 && k != 1 && k != n {
+            continue;
+        }
+        f.push((format!("mac-cut-nodes-altered@{}", k), altered[..altered.len() - k].to_vec(), true));
+        f.push((format!("mac-cut-other-seed@{}", k), other_seed[..other_seed.len() - k].to_vec(), true));
+    }
     // marker zeroed, rest valid
     let mut b = valid.to_vec();
     b[0] = 0;
@@ -426,7 +437,7 @@ pub fn run_c10(ctx: &Ctx) -> (&'static str, Map<String, Value>) {
     m.insert("lifecycle_configurations".into(), json!(life_labels));
     m.insert("lifecycle_states".into(), json!(life_agg.states.load(std::sync::atomic::Ordering::Relaxed)));
     m.insert("lifecycle_transitions".into(), json!(life_agg.transitions.load(std::sync::atomic::Ordering::Relaxed)));
-    m.insert("rule".into(), json!("per configuration: the valid buffer (model-built, compared with what keygen writes) under every single-bit flip, truncation to every length, padding 1..n+4, marker zeroed, foreign buffers, garbage patterns, the half-initialised buffer left by sign on a fresh buffer, planted wrong nodes; fresh zero buffers at every level-boundary length; each faulty buffer is driven through keygen and through sign followed by a second sign with the buffer as left behind, and (two-step fault sequence) through keygen / sign right after the same operation used the intact buffer in the same process; every run is compared with the aux-less run"));
+    m.insert("rule".into(), json!("per configuration: the valid buffer (model-built, compared with what keygen writes) under every single-bit flip, truncation to every length, padding 1..n+4, marker zeroed, foreign buffers, garbage patterns, the half-initialised buffer left by sign on a fresh buffer, planted wrong nodes, buffers cut inside the MAC whose contents are also wrong (two faults); fresh zero buffers at every level-boundary length; each faulty buffer is driven through keygen and through sign followed by a second sign with the buffer as left behind, and (two-step fault sequence) through keygen / sign right after the same operation used the intact buffer in the same process; every run is compared with the aux-less run"));
     m.insert("exhaustive".into(), json!(true));
     ("fault_enumeration", m)
 }
